@@ -78,6 +78,20 @@ func (g *gen) corpus() []cse {
 	add(true, "plain", one, sched(T0+10*S, "none"), man(T0+50*S, at(T0+40*S, 0), "-", false, "none"), sched(T0+70*S, "none"))
 	// rows written, record+advance fails -> the same window is emitted again by the next tick
 	add(true, "plain", one, sched(T0+10*S, "none"), sched(T0+70*S, "upd"), sched(T0+130*S, "none"))
+	// destination write rejected (injected / by the real buffer): a failed execution, cursor must stay
+	add(true, "plain", one, sched(T0+10*S, "none"), sched(T0+70*S, "wr"), sched(T0+130*S, "none"))
+	add(true, "badtime", one, sched(T0+10*S, "none"), man(T0+70*S, "-", "-", false, "none"),
+		upd(T0+80*S, true, 60, "plain"), sched(T0+130*S, "none"))
+	add(true, "plain", one, sched(T0+10*S, "none"), man(T0+70*S, "-", "-", false, "wr"), upd(T0+80*S, true, 60, "badtime"),
+		sched(T0+130*S, "none"), upd(T0+140*S, true, 60, "grouped"), sched(T0+190*S, "wr"), src(T0+200*S, "b"), sched(T0+250*S, "wr"), sched(T0+310*S, "none"))
+	// long idle periods: the first run afterwards must still start at the cursor
+	day := 86400 * S
+	add(true, "plain", one, sched(T0+10*S, "none"), sched(T0+10*S+3*day, "none"), sched(T0+70*S+3*day, "none"))
+	add(true, "plain", one, sched(T0+10*S, "none"), restart(T0+20*S+9*day), sched(T0+30*S+9*day+S/2, "none"))
+	add(true, "plain", one, sched(T0+10*S, "none"), upd(T0+20*S, false, 60, "plain"), upd(T0+20*S+30*day, true, 60, "plain"),
+		src(T0+15*day, "a"), sched(T0+80*S+30*day, "none"), sched(T0+140*S+30*day, "none"))
+	add(true, "plain", one, sched(T0+10*S, "none"), sched(T0+70*S+2*day, "agg"), sched(T0+70*S+4*day, "agg"), sched(T0+70*S+5*day, "none"))
+	add(true, "plain", one, sched(T0+10*S, "none"), sched(T0+10*S+day, "none"), sched(T0+11*S+2*day, "none"), sched(T0+11*S+2*day+day+1, "none"))
 	// tame: three ticks at sub-second clock positions
 	add(false, "plain", withSrc(sched(T0+10*S+250*ms, "none"), sched(T0+70*S+750*ms, "none"), sched(T0+130*S+100*ms, "none"))...)
 	// first execution at a whole-second clock
@@ -158,20 +172,23 @@ func (g *gen) random() cse {
 	}
 	fault := func() string {
 		if tame {
-			if r.Chance(12) {
+			if r.Chance(14) {
 				nontrivial = true
-				return "agg"
+				return vh.Pick(r, []string{"agg", "wr"})
 			}
 			return "none"
 		}
 		switch x := r.Intn(100); {
-		case x < 10:
+		case x < 7:
+			nontrivial = true
+			return "wr"
+		case x < 14:
 			nontrivial = true
 			return "agg"
-		case x < 18:
+		case x < 21:
 			nontrivial = true
 			return "upd"
-		case x < 24:
+		case x < 27:
 			nontrivial = true
 			return "ins"
 		}
@@ -192,6 +209,10 @@ func (g *gen) random() cse {
 		case 7:
 			if r.Chance(25) && !tame {
 				now -= int64(r.Intn(30)) * S // clock stepped back
+			} else if r.Chance(45) {
+				// long idle period: days to weeks (downtime, paused query, failure streak)
+				nontrivial = true
+				now += int64(r.Range(1, 40))*86400*S + int64(r.Intn(86400))*S + int64(r.Intn(2))*int64(r.Intn(int(S)))
 			} else {
 				now += int64(r.Range(600, 7200)) * S
 			}
@@ -258,7 +279,7 @@ func (g *gen) random() cse {
 			case 0:
 				active = !active
 			case 1:
-				curQ = vh.Pick(r, []string{"plain", "grouped", "broken"})
+				curQ = vh.Pick(r, []string{"plain", "grouped", "broken", "badtime"})
 			case 2:
 				curIvl = vh.Pick(r, []int64{60, 7, 0, 120})
 			case 3:
